@@ -188,6 +188,8 @@ def run_case(c, rng, props):
                         problems.append(("C05", k, "VJP dtype %s for a float64 argument" % vja.dtype))
                     elif isinstance(x, float) and vja.shape != ():
                         problems.append(("C05", k, "VJP of a Python scalar has shape %s" % (vja.shape,)))
+                if vja.shape != xa.shape and "C01" in props:
+                    problems.append(("C01", k, "VJP has shape %s, J^T g has the argument's shape %s: a wrong cotangent, silently" % (vja.shape, xa.shape)))
                 if vja.shape == xa.shape and ("C01" in props or "C09" in props):
                     if not onp.all(onp.isfinite(vja)):
                         problems.append(("C01", k, "VJP not finite at a regular point"))
@@ -210,6 +212,8 @@ def run_case(c, rng, props):
                     problems.append(("C02", k, "forward mode raised an unexpected %s" % type(ex).__name__))
             if jv is not None:
                 jva = onp.asarray(jv)
+                if "C05" in props and jva.shape == yv.shape and kind(jva) != kind(yv):
+                    problems.append(("C05", k, "JVP is %s but the function's output is %s" % (kind(jva), kind(yv))))
                 if jva.shape != yv.shape:
                     problems.append(("C02", k, "JVP shape %s != output shape %s" % (jva.shape, yv.shape)))
                 else:
@@ -432,11 +436,11 @@ def cases(rng, tier):
     # ---- F5: contractions (bilinear: exact in each argument) ----
     mats = [((), ()), ((), (3,)), ((3,), ()), ((3,), (3,)), ((2, 3), (3,)), ((3,), (3, 2)), ((2, 3), (3, 2)),
             ((2, 2, 3), (3,)), ((2, 2, 3), (3, 2)), ((2, 3), (2, 3, 2)), ((2, 2, 3), (2, 3, 2))]
-    for s1, s2 in pick(mats, 6):
+    for s1, s2 in mats:
         lin("dot", "shapes=%s,%s" % (s1, s2), (lambda m, a, b: m.dot(a, b)), [iarr(rng, s1), iarr(rng, s2)], (0, 1))
     mm = [((3,), (3,)), ((2, 3), (3,)), ((3,), (3, 2)), ((2, 3), (3, 2)), ((2, 2, 3), (3, 2)), ((2, 3), (2, 3, 2)),
           ((2, 2, 3), (2, 3, 2)), ((1, 2, 3), (2, 3, 2)), ((2, 1, 2, 3), (3, 3, 2)), ((2, 2, 3), (3,)), ((3,), (2, 3, 2))]
-    for s1, s2 in pick(mm, 6):
+    for s1, s2 in mm:
         lin("matmul", "shapes=%s,%s" % (s1, s2), (lambda m, a, b: m.matmul(a, b)), [iarr(rng, s1), iarr(rng, s2)], (0, 1))
         lin("op@", "shapes=%s,%s" % (s1, s2), (lambda m, a, b: a @ b), [iarr(rng, s1), iarr(rng, s2)], (0, 1))
     for s1, s2 in (((3,), (2,)), ((2, 2), (3,)), ((), (3,))):
@@ -445,8 +449,12 @@ def cases(rng, tier):
         lin("inner", "shapes=%s,%s" % (s1, s2), (lambda m, a, b: m.inner(a, b)), [iarr(rng, s1), iarr(rng, s2)], (0, 1))
     td = [((2, 3), (3, 2), 1), ((2, 3), (2, 3), 2), ((2, 3), (4,), 0), ((2, 3, 2), (3, 2, 2), 2),
           ((2, 3, 2), (2, 3), ([0, 1], [0, 1])), ((2, 3, 2), (3, 2), ([1], [0])), ((2, 3, 2), (2, 2, 3), ([0, 1], [1, 2])),
-          ((2, 3, 2), (3, 2), ([-2], [-2])), ((2, 3), (3,), (1, 0)), ((3,), (3,), 1)]
-    for s1, s2, ax in pick(td, 6):
+          ((2, 3, 2), (3, 2), ([-2], [-2])), ((2, 3), (3,), (1, 0)), ((3,), (3,), 1),
+          # crossed pairings of the contracted axes, equal and unequal sizes
+          ((2, 3), (3, 2), ([0, 1], [1, 0])), ((3, 3), (3, 3), ([0, 1], [1, 0])), ((2, 3, 4), (4, 2, 5), ([0, 2], [1, 0])),
+          ((2, 3, 4), (5, 4, 2), ([2, 0], [1, 2])), ((2, 3, 2), (2, 2), ([2, 0], [0, 1])), ((2, 3, 4), (3, 4, 2), ([1, 2, 0], [0, 1, 2])),
+          ((2, 3, 4), (4, 3), ([-1, -2], [0, 1])), ((2, 3), (2, 3), ([1, 0], [1, 0]))]
+    for s1, s2, ax in td:
         lin("tensordot", "shapes=%s,%s axes=%s" % (s1, s2, ax), (lambda m, a, b, ax=ax: m.tensordot(a, b, ax)), [iarr(rng, s1), iarr(rng, s2)], (0, 1))
     for s1, s2 in (((2,), (3,)), ((2, 2), (2, 3)), ((2,), (2, 3)), ((2, 2), (3,)), ((), (2, 2)), ((2, 1, 2), (2, 2, 1)), ((2, 2, 2), (2,))):
         tag = "shapes=%s,%s%s" % (s1, s2, " ndim>2" if max(len(s1), len(s2)) > 2 else "")
@@ -454,11 +462,25 @@ def cases(rng, tier):
     es = [("ij,jk->ik", (2, 3), (3, 2)), ("ij,ij->", (2, 3), (2, 3)), ("i,i->i", (3,), (3,)), ("ij->ji", (2, 3), None),
           ("ii->i", (3, 3), None), ("ij->", (2, 3), None), ("...ij,jk->...ik", (2, 2, 3), (3, 2)), ("ij,kj->ik", (2, 3), (4, 3)),
           ("i,j->ij", (2,), (3,)), ("ijk,k->ij", (2, 3, 2), (2,)), ("ij,j", (2, 3), (3,))]
-    for sub, s1, s2 in pick(es, 6):
+    for sub, s1, s2 in es:
         if s2 is None:
             lin("einsum", sub, (lambda m, a, sub=sub: m.einsum(sub, a)), [iarr(rng, s1)])
         else:
             lin("einsum", sub, (lambda m, a, b, sub=sub: m.einsum(sub, a, b)), [iarr(rng, s1), iarr(rng, s2)], (0, 1))
+    # interleaved operand / sublist form, Ellipsis leading, central and trailing, with extra broadcast dimensions
+    E = Ellipsis
+    esl = [((2, 3), [0, 1], (3, 4), [1, 2], [0, 2]), ((2, 3), [E, 0, 1], (5, 3, 4), [E, 1, 2], [E, 0, 2]),
+           ((2, 3), [0, E, 1], (3, 5, 4), [1, E, 2], [0, E, 2]), ((2, 3), [0, 1, E], (3, 4, 5), [1, 2, E], [0, 2, E]),
+           ((2, 3), [0, 1, E], (3, 4, 5, 6), [1, 2, E], [0, 2, E]), ((2, 3), [0, E, 1], (3, 5, 6, 4), [1, E, 2], [0, E, 2]),
+           ((2, 3), [E, 0, 1], (5, 6, 3, 4), [E, 1, 2], [E, 0, 2]), ((5, 2, 3), [E, 0, 1], (3, 4), [E, 1, 2], [E, 0, 2]),
+           ((2, 5, 3), [0, E, 1], (3, 4), [1, E, 2], [0, E, 2]), ((3,), [0], (3,), [0], []), ((2, 3), [0, 1], None, None, [1, 0])]
+    for s1, l1, s2, l2, lo in esl:
+        tag = "sublist %s,%s->%s shapes=%s,%s" % (str(l1).replace("Ellipsis", "..."), str(l2).replace("Ellipsis", "..."),
+                                                str(lo).replace("Ellipsis", "..."), s1, s2)
+        if s2 is None:
+            lin("einsum", tag, (lambda m, a, l1=l1, lo=lo: m.einsum(a, l1, lo)), [iarr(rng, s1)])
+        else:
+            lin("einsum", tag, (lambda m, a, b, l1=l1, l2=l2, lo=lo: m.einsum(a, l1, b, l2, lo)), [iarr(rng, s1), iarr(rng, s2)], (0, 1))
     for s1, s2 in (((3,), (3,)), ((2, 3), (2, 3)), ((3,), (4, 3)), ((2, 3), (3,)), ((2,), (2,))):
         tag = "shapes=%s,%s%s" % (s1, s2, " broadcast" if s1 != s2 else "")
         lin("cross", tag, (lambda m, a, b: m.cross(a, b)), [iarr(rng, s1), iarr(rng, s2)], (0, 1))
@@ -525,6 +547,8 @@ def complex_cases(rng, tier):
         ("matmul", lambda m, a, b: m.matmul(a, b), [z23, w32]), ("outer", lambda m, a, b: m.outer(a, b), [z3, z3]),
         ("inner", lambda m, a, b: m.inner(a, b), [r23, iarr(rng, (3,), cplx=True)]), ("tensordot", lambda m, a, b: m.tensordot(a, b, 1), [z23, w32]),
         ("kron", lambda m, a, b: m.kron(a, b), [iarr(rng, (2,), cplx=True), iarr(rng, (2,))]),
+        ("vstack", lambda m, a, b: m.vstack([a, b]), [r23, z23]), ("hstack", lambda m, a, b: m.hstack([a, b]), [z23, r23]),
+        ("stack", lambda m, a, b: m.stack([a, b]), [r23, z23]), ("append", lambda m, a, b: m.append(a, b), [r23, z3]),
         ("transpose", lambda m, a: m.transpose(a), [z23]), ("reshape", lambda m, a: m.reshape(a, (3, 2)), [z23]),
         ("getitem", lambda m, a: a[::-1, [0, 0]], [z23]), ("concatenate", lambda m, a, b: m.concatenate([a, b]), [z23, r23]),
         ("where", lambda m, a, b: m.where(onp.array([True, False, True]), a, b), [z3, iarr(rng, (3,))]),
